@@ -45,6 +45,18 @@ impl Command {
         rt().procs.push(Proc { state: PState::Running, reaped: false, script: script.clone(), dir: dir.clone(), task });
         zx_rt::log(&format!("proc_spawn p{} task={} dir={} script={:?}", id, task, dir, script));
         zx_rt::bump();
+        if let Ok(pat) = std::env::var("ZX_CRASH_ON_SPAWN") {
+            if script.contains(pat.as_str()) {
+                // zinoma itself dies while this script is running
+                zx_rt::log("crash (on spawn)");
+                std::process::exit(77);
+            }
+        }
+        if let Ok(pat) = std::env::var("ZX_FAIL_SCRIPT") {
+            if script.contains(pat.as_str()) {
+                rt().procs[id].state = PState::Exited(1);
+            }
+        }
         Ok(Child { id })
     }
     pub fn output(&mut self) -> OutputFut {
